@@ -20,7 +20,10 @@ ASSUMPTIONS = [
 ]
 CONDITIONS = shards("step", "c16.py", "h_step", {"comp": [0, 1], "op": list(range(len(_h.OPS)))}, timeout=300,
                     what="one mutator (%s) from an arbitrary valid stored state: exclusivity + identities + only documented errors" % ", ".join(_h.OPS),
-                    bound="values on 3 days x 86400 s, 3 value kinds + absent; DURATION <=2d+86399s") + [
+                    bound="values on 3 days x 86400 s, 3 value kinds + absent; DURATION <=2d+86399s") + \
+    shards("step-pool", "c16.py", "h_step_pool", {"comp": [0, 1], "op": [0, 1, 2, 3, 4, 5, 6, 7]}, timeout=400, samples=10,
+           what="the same step with concrete boundary values (pool of seconds incl. 1440, 7200, 43200), so that float / modulo arithmetic in the code is executed, not solved",
+           bound="8 second values x 3 day values x value kinds; 8 mutators x Event/Todo") + [
     X("forbidden", "c16.py", "h_forbidden", timeout=200, what="stored end AND DURATION: start/end/duration raise exactly InvalidCalendar", bound="same value ranges"),
     X("types", "c16.py", "h_types", timeout=100, what="wrong argument type => TypeError, component unchanged", bound="5 setters x 3 wrong kinds x Event/Todo"),
     X("journal", "c16.py", "h_journal", timeout=100, what="Journal: start == end == DTSTART, duration 0, missing start => IncompleteComponent", bound="same value ranges"),
